@@ -59,11 +59,28 @@ type World struct {
 
 func NewWorld(rec *Recorder) *World {
 	w := &World{ver: map[string]int{}, res: map[string]*reactive.Resource{}, fail: map[string]*failSpec{}, rec: rec}
-	for _, f := range Fields {
-		w.res[f] = reactive.NewResource()
-	}
 	w.S = "x"
 	return w
+}
+
+// fieldRes returns the live resource of a field (w.mu held). A reactive.Resource is released - and
+// invalidated for good - when its last dependant goes away; handing a released one to a later
+// computation would invalidate that computation at once, again and again. So a released field resource is
+// dropped (its own Cleanup does that) and the next reader gets a fresh one.
+func (w *World) fieldRes(field string) *reactive.Resource {
+	if r := w.res[field]; r != nil {
+		return r
+	}
+	r := reactive.NewResource()
+	r.Cleanup(func() {
+		w.mu.Lock()
+		if w.res[field] == r {
+			delete(w.res, field)
+		}
+		w.mu.Unlock()
+	})
+	w.res[field] = r
+	return r
 }
 
 type worldKey struct{}
@@ -201,7 +218,7 @@ func (w *World) Versions() map[string]int {
 func (w *World) currentRes(field string) *reactive.Resource {
 	w.mu.Lock()
 	defer w.mu.Unlock()
-	return w.res[field]
+	return w.fieldRes(field)
 }
 
 // Touch bumps the version of a field and invalidates its dependants (strobe, or permanent
@@ -209,11 +226,14 @@ func (w *World) currentRes(field string) *reactive.Resource {
 func (w *World) Touch(field string, permanent bool) {
 	w.mu.Lock()
 	w.ver[field]++
-	r := w.res[field]
+	r := w.res[field] // nil: nothing depends on the field at the moment
 	if permanent {
-		w.res[field] = reactive.NewResource()
+		delete(w.res, field)
 	}
 	w.mu.Unlock()
+	if r == nil {
+		return
+	}
 	if permanent {
 		r.Invalidate()
 	} else {
